@@ -14,7 +14,7 @@ def gen_config(rng, tier):
                    [1, 2, 2, 2, 3, 3, 3, 3, 4, 4, 5])
     ops = {"new": 1.0, "measure": 4.0}
     for k, w in (("rot", 2.0), ("tmap", 1.5), ("gate", 1.0), ("copy", 0.5), ("setr", 0.7),
-                 ("remeasure", 2.0), ("resample", 0.6)):
+                 ("remeasure", 2.0), ("resample", 0.6), ("relayout", 0.5)):
         if rng.random() < 0.75:
             ops[k] = w * rng.choice([0.5, 1.0, 2.0])
     faults = [f for f in ("coin_force", "remeasure", "view_operand") if rng.random() < 0.7]
